@@ -461,6 +461,7 @@ impl Model {
             Action::DropReq { site, arg } => self.drop_req((*site, *arg)),
             Action::Abort { handle } => self.abort(*handle),
             Action::Noop => {}
+            Action::Extend(c) => self.extend(c),
         }
         self.settle();
         self.end_step(expect)
@@ -891,6 +892,25 @@ impl Model {
         };
         if receiver_alive {
             self.wake_if_registered(owner, key);
+        }
+    }
+
+    /// `root = root.and(other)`: one more task in the root command, hosting `other`
+    fn extend(&mut self, other: &Cmd) {
+        let root = self.roots[0];
+        let before = self.cmds[root].tasks.len();
+        self.host_child(root, other, None, None);
+        let host = *self.cmds[root].tasks.last().expect("host task");
+        debug_assert!(self.cmds[root].tasks.len() == before + 1);
+        if self.cmds[root].aborted {
+            // work added to an aborted command is cancelled work: it never runs
+            self.drop_task_tree(host);
+            self.cmds[root].tasks.retain(|t| *t != host);
+            return;
+        }
+        self.cmds[root].done = false;
+        if self.cmds[root].started {
+            self.ready.push_back(host);
         }
     }
 
